@@ -1248,7 +1248,7 @@ func genCase(t *rapid.T) xferCase {
 	}
 	c.Sender = "harness"
 	nenv := len(c.Sizes)
-	if rapid.IntRange(0, 99).Draw(t, "faulty") < 60 {
+	if rapid.IntRange(0, 99).Draw(t, "faulty") < 50 {
 		pool := strongPlain
 		if c.Tsig != nil {
 			pool = strongTsig
@@ -1283,7 +1283,7 @@ func genCase(t *rapid.T) xferCase {
 		switch rapid.IntRange(0, 9).Draw(t, "sender") {
 		case 0, 1, 2:
 			c.Sender = "library"
-		case 3:
+		case 3, 4:
 			if c.Fault.Kind == "" {
 				c.Sender = "libout"
 			}
